@@ -285,7 +285,7 @@ impl Check for C10 {
     }
     fn generate(&self, g: &GenParams, emit: &mut dyn FnMut(Case)) {
         let mut r = g.rng(10);
-        let n = g.count(30_000, 1_200_000);
+        let n = g.count(100_000, 5_000_000);
         for k in 0..n {
             let mut o = DocOpts::random(&mut r);
             o.dup_keys = k % 6 == 0;
